@@ -7,5 +7,5 @@ python3 extract/extract.py > /dev/null
 (cd lean && lake build 2>&1 | tail -3)
 python3 tools/gen_harness.py
 (cd harness && cargo build --offline --target-dir ../.cache/harness 2>&1 | tail -1)
-(cd /repo && RUSTFLAGS="--cfg rjrssync_verif" cargo build --offline --bin rjrssync --target-dir /verif/.cache/cli 2>&1 | tail -1)
+V=$(pwd); (cd ${VERIF_REPO:-/repo} && RUSTFLAGS="--cfg rjrssync_verif" cargo build --offline --bin rjrssync --target-dir $V/.cache/cli 2>&1 | tail -1)
 echo setup-done
